@@ -413,6 +413,37 @@ func (e *dExec) step(line string) (out string) {
 		}
 		e.invariant(site)
 		return fmt.Sprintf("%s %s", hxl(p[:k]), e.state())
+	case "init":
+		// Init on a used value (pool-style re-use)
+		w, _ := strconv.Atoi(ws[1])
+		bs, _ := strconv.Atoi(ws[2])
+		cfg := lz.DecoderConfig{WindowSize: w, BufferSize: bs}
+		var err error
+		if e.dd {
+			nw := &scriptWriter{resps: parseResps(ws[3])}
+			err = e.dec.Init(nw, cfg)
+			if err == nil {
+				e.w = nw
+				e.curW = nw
+			}
+		} else {
+			err = b.Init(cfg)
+		}
+		if err != nil {
+			e.invariant(site)
+			if e.dd {
+				return "cfg - " + e.state()
+			}
+			return "cfg " + e.state()
+		}
+		e.ws = e.buf.WindowSize
+		e.written, e.delivered = e.written[:0], 0
+		e.cnt.inc("d.reinit")
+		e.invariant(site)
+		if e.dd {
+			return "ok - " + e.state()
+		}
+		return "ok " + e.state()
 	case "reset":
 		if e.dd {
 			e.w = &scriptWriter{resps: parseResps(ws[1])}
